@@ -25,10 +25,10 @@ fn resource_id(s: &Sx) -> ResourceID {
     let r = s.list();
     let n = |i: usize| r[i].num();
     match n(0) {
-        0 => ResourceID::Cache(CacheResource::new(n(1) as u32)),
-        1 => ResourceID::MemoryAffinityStructure(MemoryAffinityStructureResource::new(n(1) as u32, n(2))),
-        2 => ResourceID::ACPIDevice(ACPIDeviceResource::new(n(1), n(2) as u32)),
-        3 => ResourceID::PCIDevice(PCIDeviceResource::new(n(1) as u32)),
+        0 => ResourceID::Cache(raw(CacheResource::new(n(1) as u32))),
+        1 => ResourceID::MemoryAffinityStructure(raw(MemoryAffinityStructureResource::new(n(1) as u32, n(2)))),
+        2 => ResourceID::ACPIDevice(raw(ACPIDeviceResource::new(n(1), n(2) as u32))),
+        3 => ResourceID::PCIDevice(raw(PCIDeviceResource::new(n(1) as u32))),
         4 => ResourceID::VendorSpecific(n(1) as u8, r[2].bytes()),
         _ => panic!("harness: bad resource id"),
     }
